@@ -287,9 +287,123 @@ class Transformer(ast.NodeTransformer):
         return out
 
 
+class BreakDesugar(ast.NodeTransformer):
+    """(0) pre-pass: `for T in seq: ... if c: ...; break ... else: E` over a plain sequence becomes a loop without `break`:
+
+            brk = False
+            for T in seq:
+                if brk is True: break            # concrete early exit, as before
+                if not brk: BODY'                # `break` -> brk = True; statements after a breaking `if` are guarded by `not brk`
+            if not brk: E
+
+       so that a break under a symbolic condition is if-converted instead of forking once per iteration. Only applied when it
+       is exact: breaks sit in `if` arms of the loop body only (no nested loops / try / with / continue / return / yield), the loop
+       variables are not read after the loop, and - checked at run time - the iterable is a plain sequence (list, tuple, range,
+       str, bytes, dict ...); otherwise the original loop runs (both versions are emitted)."""
+    def __init__(self):
+        self.n = 0
+        self.fn = []
+        self.count = 0
+
+    def visit_FunctionDef(self, node):
+        self.fn.append(node)
+        self.generic_visit(node)
+        self.fn.pop()
+        return node
+
+    @staticmethod
+    def _has_break(stmts):
+        return any(isinstance(n, ast.Break) for s in stmts for n in ast.walk(s))
+
+    def _qualifies(self, node):
+        if not self.fn or not self._has_break(node.body):
+            return False
+        tg = node.target
+        if isinstance(tg, ast.Name):
+            names = {tg.id}
+        elif isinstance(tg, ast.Tuple) and all(isinstance(e, ast.Name) for e in tg.elts):
+            names = {e.id for e in tg.elts}
+        else:
+            return False
+        bad = (ast.For, ast.While, ast.Try, ast.With, ast.Continue, ast.Return, ast.Yield, ast.YieldFrom, ast.Await, ast.FunctionDef,
+               ast.ClassDef, ast.AsyncFor, ast.AsyncWith, ast.Global, ast.Nonlocal, ast.Delete, ast.Match if hasattr(ast, 'Match') else ast.For)
+        for s in node.body + node.orelse:
+            for n in ast.walk(s):
+                if isinstance(n, bad):
+                    return False
+        # every break must be reachable through `if` arms only
+        def ok(stmts):
+            for s in stmts:
+                if isinstance(s, ast.Break):
+                    continue
+                if isinstance(s, ast.If):
+                    if not ok(s.body) or not ok(s.orelse):
+                        return False
+                    continue
+                if any(isinstance(n, ast.Break) for n in ast.walk(s)):
+                    return False
+            return True
+        if not ok(node.body) or self._has_break(node.orelse):
+            return False
+        if not isinstance(node.iter, (ast.Name, ast.Attribute, ast.Subscript, ast.Constant, ast.Tuple, ast.List, ast.Call)):
+            return False
+        # loop variables must not be read outside the loop (after a break they would hold later elements here)
+        inside = {id(n) for s in [node] for n in ast.walk(s)}
+        for n in ast.walk(self.fn[-1]):
+            if isinstance(n, ast.Name) and n.id in names and isinstance(n.ctx, ast.Load) and id(n) not in inside:
+                return False
+        return True
+
+    def visit_For(self, node):
+        self.generic_visit(node)
+        if not self._qualifies(node):
+            return node
+        import copy
+        self.n += 1
+        self.count += 1
+        b, itv = f'__sx_brk{self.n}', f'__sx_seq{self.n}'
+
+        def notb():
+            return ast.Call(_rt('not_'), [ast.Name(b, ast.Load())], [])
+
+        def conv(stmts):
+            out = []
+            for k, s in enumerate(stmts):
+                if isinstance(s, ast.Break):
+                    out.append(ast.Assign([ast.Name(b, ast.Store())], ast.Constant(True)))
+                    return out
+                if isinstance(s, ast.If) and self._has_break([s]):
+                    out.append(ast.If(s.test, conv(s.body) or [ast.Pass()], conv(s.orelse)))
+                    rest = conv(stmts[k + 1:])
+                    if rest:
+                        out.append(ast.If(notb(), rest, []))
+                    return out
+                out.append(s)
+            return out
+        original = ast.For(copy.deepcopy(node.target), ast.Name(itv, ast.Load()), copy.deepcopy(node.body), copy.deepcopy(node.orelse))
+        new_body = [ast.If(ast.Compare(ast.Name(b, ast.Load()), [ast.Is()], [ast.Constant(True)]), [ast.Break()], []),
+                    ast.If(notb(), conv(node.body) or [ast.Pass()], [])]
+        desugared = [ast.Assign([ast.Name(b, ast.Store())], ast.Constant(False)),
+                     ast.For(node.target, ast.Name(itv, ast.Load()), new_body, [])]
+        if node.orelse:
+            desugared.append(ast.If(notb(), node.orelse, []))
+        out = [ast.Assign([ast.Name(itv, ast.Store())], node.iter),
+               ast.If(ast.Call(_rt('plain_sequence'), [ast.Name(itv, ast.Load())], []), desugared, [original])]
+        for s in out:
+            ast.copy_location(s, node)
+            for n in ast.walk(s):
+                if not hasattr(n, 'lineno'):
+                    ast.copy_location(n, node)
+        return out
+
+
 def transform(src, path, modname, package):
     tree = ast.parse(src, path)
+    bd = BreakDesugar()
+    tree = bd.visit(tree)
+    ast.fix_missing_locations(tree)
     tr = Transformer(modname, package)
+    tr.desugared_break_loops = bd.count
     tree = tr.visit(tree)
     ast.fix_missing_locations(tree)
     return tree, tr
